@@ -32,7 +32,7 @@ REQUIRED_CLASSES = {"all": ["query_via_descendant", "query_version_excludes", "g
 BUDGET_S = {"quick": 900, "thorough": 3 * 3600}
 NSHARD = 16
 
-NAMES = ["verif.base", "verif.mid", "verif.leaf", "verifother.thing", "core.file", "core.table", "core.person",
+NAMES = ["verif.base", "verif.mid", "verif.leaf", "verif.alpha", "verifother.thing", "core.file", "core.table", "core.person",
          "example.matsci.material", "core.dir", "verif.nope"]
 VERSIONS = [None, (1, 0, 0), (1, 1, 0), (1, 2, 0), (2, 0, 0), (0, 1, 0), (0, 3, 1), (0, 3, 0), (0, 4, 0), (1, 0, 5)]
 
